@@ -18,13 +18,16 @@ HARNESS_BIN = 'c09'
 RUN_MODULE = 'Run.C14'
 THEOREMS = ['C14_requests_partition', 'C14_outcome_once', 'C14_writes_match_misses', 'C14_language_sums',
             'C14_compilations', 'C14_schedules_cover_interleavings', 'C14_every_request_is_a_program',
-            'C14_hit_did_not_compile', 'C14_zero_midflight_refuted']
+            'C14_hit_did_not_compile', 'C14_panic_is_an_error_outcome', 'C14_zero_midflight_refuted']
 ASSUMPTIONS = [
     'each critical section on the statistics mutex is atomic (tokio::sync::Mutex); the laws are claimed at quiescent '
     'points (no request in flight), zeroing included only there: C14_zero_midflight_refuted shows that is inherent',
+    'a request whose processing panics inside the compile task is an executed request with outcome `error`: the panic is '
+    'caught by catch_unwind in start_compile_task and counted under cache_errors (C14_panic_is_an_error_outcome); the '
+    'fault space of the differential leg makes every storage call and both process spawns panic',
     'not modelled: distributed compilation (dist_compiles, dist_errors; a failed distributed compile bumps both '
-    'compilations and compile_fails; an HTTP 4xx error bumps nothing), the *_duration fields, a panic or task '
-    'cancellation inside start_compile_task (no outcome increment at all)',
+    'compilations and compile_fails; an HTTP 4xx error bumps nothing), the *_duration fields, cancellation of the '
+    'compile task (no outcome increment at all)',
     'SCCACHE_NO_CACHE compiles have no counter of their own: the class "compiled without storing" is '
     'compilations - cache_misses (forced no-cache + non_cacheable_compilations)',
 ]
